@@ -16,13 +16,19 @@
     trip; C18: merge patch conforms to RFC 7396) are statements about the heap-level code on well-formed
     documents, MODULO the control flow of the utilities themselves (which primitive is called with which
     argument, in which order): that control flow is transliterated, not verified against the heap, and stays
-    tied to the C code by the differential run of tools/props/C16..C18.py.  What is NOT covered by C06 and
-    therefore still presupposed: the heap-level pointer surgery of Utils' OWN [detach_item_from_array],
-    [insert_item_in_array] and [overwrite_item] (cJSON_Utils.c; no heap-level model of them exists in this
-    development) — clauses 8 and 9 below relate their list functions to the forest-level model of the CORE
-    functions of the same purpose and make the one difference (insertion past the end) explicit. *)
+    tied to the C code by the differential run of tools/props/C16..C18.py.
+
+    Utils' OWN pointer surgery.  JSON Patch detaches / inserts array elements with [detach_item_from_array] /
+    [insert_item_in_array] of cJSON_Utils.c, which C06 does not speak about.  TierBridgeUtilsDefs.v
+    transliterates them on the heap; TierBridgeUtils.v proves that on a well-formed heap they compute what
+    cJSON_DetachItemFromArray / cJSON_InsertItemInArray compute (the latter for an index within
+    0..length; past the end the Utils function refuses and touches nothing); clauses 15-17 below are their
+    refinement of the forest model, clauses 8-9 the agreement of the list functions.  What remains
+    presupposed: [overwrite_item] (replacement of the document root in place: frees the root's strings and
+    children, then memcpy) — no forest-level model of it exists. *)
 From CJ Require Import Base Dbl Heap Forest ForestLemmas CoreSpec CoreRefineDupBase CoreRefineDupTree CoreRefineDupValue.
 From CJ Require Import TierBridgeDefs TierBridgeSort TierBridgeForest TierBridgeLemmas TierBridgeSortHeap.
+From CJ Require Import CoreDefs CoreRefineBase TierBridgeUtilsDefs TierBridgeUtils.
 From CJ Require Tree CompareDefs PointerDefs PatchDefs MergeDefs SortDefs SortSpec CoreRefineDupForest.
 From CJ.gen Require Import Constants.
 From stdpp Require Import gmap.
@@ -156,7 +162,37 @@ Theorem tier_b_presupposition :
   (* 14. constructors *)
   (forall St id ty, reify St (T id (mkRD ty None 0 dzero None None) []) = MergeDefs.mp_new_item ty) /\
   (forall St id b (s : bytes), St !! b = Some (s ++ [0]) -> SortSpec.zfree s ->
-     reify St (T id (mkRD c_cJSON_String (Some b) 0 dzero None None) []) = PatchDefs.create_string s).
+     reify St (T id (mkRD c_cJSON_String (Some b) 0 dzero None None) []) = PatchDefs.create_string s) /\
+  (* 15. Utils' own detach_item_from_array on the heap: refines the forest model of the core function
+         (clause 8 then gives the value-level reading) *)
+  (forall h F p d cs which,
+     WF h F -> find_tree p F = Some (T p d cs) -> is_ref d = false -> 0 <= which ->
+     detach_item_from_array (Some p) which h = cJSON_DetachItemFromArray (Some p) which h /\
+     match cs !! Z.to_nat which with
+     | Some tx =>
+         let F' := set_children p (delete (Z.to_nat which) cs) F ++ [tx] in
+         spec_detach_index F (Some p) which = (F', Some (tid tx)) /\
+         detach_item_from_array (Some p) which h = Ret (Some (tid tx), upd_maps h (heap_lnk_of F') (heap_dat_of F')) /\
+         WF (upd_maps h (heap_lnk_of F') (heap_dat_of F')) F'
+     | None =>
+         spec_detach_index F (Some p) which = (F, None) /\ detach_item_from_array (Some p) which h = Ret (None, h)
+     end) /\
+  (* 16. Utils' own insert_item_in_array on the heap, index within 0..length: as the core function *)
+  (forall h F p x tx d cs which,
+     WF h F -> p <> x -> find_root x F = Some tx -> find_tree p (remove_root x F) = Some (T p d cs) ->
+     is_ref d = false -> 0 <= which <= Z.of_nat (length cs) ->
+     let F' := set_children p (if (Z.to_nat which <? length cs)%nat then insert_at (Z.to_nat which) tx cs else cs ++ [tx])
+                 (remove_root x F) in
+     insert_item_in_array (Some p) which (Some x) h = cJSON_InsertItemInArray (Some p) which (Some x) h /\
+     spec_insert F (Some p) which (Some x) = (F', true) /\
+     insert_item_in_array (Some p) which (Some x) h = Ret (true, upd_maps h (heap_lnk_of F') (heap_dat_of F')) /\
+     WF (upd_maps h (heap_lnk_of F') (heap_dat_of F')) F') /\
+  (* 17. … and past the end it refuses and touches nothing (the core function appends) *)
+  (forall h F p x tx d cs which,
+     WF h F -> p <> x -> find_root x F = Some tx -> find_tree p (remove_root x F) = Some (T p d cs) ->
+     is_ref d = false -> Z.of_nat (length cs) < which ->
+     insert_item_in_array (Some p) which (Some x) h = Ret (false, h) /\
+     (spec_insert F (Some p) which (Some x)).2 = true).
 Proof.
   split_and!.
   - intros. by eapply bridge_get_key_commutes.
@@ -179,6 +215,16 @@ Proof.
   - intros. by eapply sort_object_forest.
   - intros. apply bridge_create_typed.
   - intros. by apply bridge_create_string.
+  - intros h F p d cs which W Hp Href Hw. split; [by eapply u_detach_eq_core|].
+    destruct (cs !! Z.to_nat which) as [tx|] eqn:E.
+    + by apply (u_detach_sim h F p d cs which tx).
+    + by apply (u_detach_refused h F p d cs which).
+  - intros h F p x tx d cs which W Hpx Hx Hp Href Hw. cbv zeta.
+    split; [by eapply u_insert_eq_core|].
+    destruct (Nat.ltb_spec (Z.to_nat which) (length cs)) as [Hl|Hl].
+    + apply (u_insert_sim_before h F p x tx d cs W Hpx Hx Hp Href which); [lia|done].
+    + apply (u_insert_sim_append h F p x tx d cs W Hpx Hx Hp Href which). lia.
+  - intros h F p x tx d cs which W Hpx Hx Hp Href Hw. by apply (u_insert_refused h F p x tx d cs).
 Qed.
 
 (** * Non-vacuity: the forest [ex_F] of TierBridgeDefs.v
